@@ -360,7 +360,11 @@ class Body:
             if len(p) >= 2 and p[1] == "*":
                 base = self.expr_place([p[0]], depth - 1, _seen)
                 if base[0] == "ref":
-                    return ("place", base[1] + p[2:])
+                    np_ = base[1] + p[2:]
+                    # the referent may itself be a projection of a tuple temporary (`&(_2.0 as Some).0` in match guards)
+                    if depth > 1 and np_[0] != p[0] and len(np_) >= 2 and isinstance(np_[1], dict) and set(np_[1].keys()) == {"f"}:
+                        return self.expr_place(np_, depth - 1, _seen)
+                    return ("place", np_)
                 if base[0] in ("call", "callop") and len(p) == 2:
                     return ("deref", base)
                 if base[0] == "place" and base[1] != [p[0]]:
